@@ -205,7 +205,7 @@ Fixpoint cnt (mx b : nat) (d : data) : nat :=
   match d with
   | Leaf r => length (chunk b r)
   | Node k f => match cntf mx b f with
-                | None => match k with KTuple => 0 | _ => mx end
+                | None => mx
                 | Some c => c
                 end
   end
@@ -227,8 +227,7 @@ Proof.
     rewrite <- (map_map (fun i => nth i (chunk b r) []) Leaf). rewrite map_nth_seq. reflexivity.
   - intros k f IH. cbn [gen cnt]. rewrite IH. destruct (cntf mx b f) as [c|] eqn:E; cbn [option_map].
     + rewrite map_map. reflexivity.
-    + apply cntf_none in E. subst f. destruct k; cbn [pick pickf];
-        try (symmetry; apply repeat_map_seq). reflexivity.
+    + apply cntf_none in E. subst f. cbn [pick pickf]. symmetry. apply repeat_map_seq.
   - reflexivity.
   - intros key d IHd r IHr. cbn [genf cntf option_map]. rewrite IHd, IHr. f_equal.
     destruct (cntf mx b r) as [c|] eqn:E; cbn [option_map].
@@ -257,38 +256,6 @@ with uniformf (n : nat) (f : forest) : Prop :=
   match f with
   | FNil => True
   | FCons _ d r => uniform n d /\ uniformf n r
-  end.
-Fixpoint has_leaf (d : data) : bool :=
-  match d with
-  | Leaf _ => true
-  | Node _ f => has_leaff f
-  end
-with has_leaff (f : forest) : bool :=
-  match f with
-  | FNil => false
-  | FCons _ d r => has_leaf d || has_leaff r
-  end.
-(* no empty tuple anywhere *)
-Fixpoint tuples_ok (d : data) : bool :=
-  match d with
-  | Leaf _ => true
-  | Node k f => (match k, f with KTuple, FNil => false | _, _ => true end) && tuples_okf f
-  end
-with tuples_okf (f : forest) : bool :=
-  match f with
-  | FNil => true
-  | FCons _ d r => tuples_ok d && tuples_okf r
-  end.
-(* no empty container anywhere *)
-Fixpoint no_empty (d : data) : bool :=
-  match d with
-  | Leaf _ => true
-  | Node k f => (match f with FNil => false | _ => true end) && no_emptyf f
-  end
-with no_emptyf (f : forest) : bool :=
-  match f with
-  | FNil => true
-  | FCons _ d r => no_empty d && no_emptyf r
   end.
 Definition nbatches (n b : nat) : nat := length (chunk b (repeat 0%Z n)).
 
@@ -323,23 +290,21 @@ Proof.
 Qed.
 
 Lemma cnt_cases : forall mx b K, K <= mx ->
-  (forall d, cover b K d -> tuples_ok d = true ->
+  (forall d, cover b K d ->
      (has_leaf d = true -> cnt mx b d = K) /\ (has_leaf d = false -> cnt mx b d = mx)) /\
-  (forall f, coverf b K f -> tuples_okf f = true ->
+  (forall f, coverf b K f ->
      match cntf mx b f with
      | None => f = FNil
      | Some c => (has_leaff f = true -> c = K) /\ (has_leaff f = false -> c = mx)
      end).
 Proof.
   intros mx b K HK. apply data_forest_ind.
-  - intros r Hc _. cbn in *. split; [auto|discriminate].
-  - intros k f IH Hc Ht. cbn [cover tuples_ok has_leaf cnt] in *.
-    apply andb_true_iff in Ht. destruct Ht as [Hk Ht]. specialize (IH Hc Ht).
+  - intros r Hc. cbn in *. split; [auto|discriminate].
+  - intros k f IH Hc. cbn [cover has_leaf cnt] in *. specialize (IH Hc).
     destruct (cntf mx b f) as [c|]; [exact IH|].
-    subst f. cbn. split; [discriminate|]. intros _. destruct k; try reflexivity. discriminate.
-  - intros _ _. reflexivity.
-  - intros key d IHd r IHr [Hd Hr] Ht. cbn [tuples_okf] in Ht. apply andb_true_iff in Ht.
-    destruct Ht as [Htd Htr]. specialize (IHd Hd Htd). specialize (IHr Hr Htr).
+    subst f. cbn. split; [discriminate|reflexivity].
+  - intros _. reflexivity.
+  - intros key d IHd r IHr [Hd Hr]. specialize (IHd Hd). specialize (IHr Hr).
     cbn [cntf has_leaff]. destruct IHd as [D1 D2].
     destruct (cntf mx b r) as [c|].
     + destruct IHr as [R1 R2]. destruct (has_leaf d), (has_leaff r); cbn [orb]; split; intros; try discriminate;
@@ -347,19 +312,16 @@ Proof.
     + subst r. cbn [has_leaff]. rewrite orb_false_r. split; auto.
 Qed.
 
-Lemma no_empty_cnt : forall mx b K,
-  (forall d, cover b K d -> no_empty d = true -> cnt mx b d = K) /\
-  (forall f, coverf b K f -> no_emptyf f = true ->
-     match cntf mx b f with None => f = FNil | Some c => c = K end).
+Lemma leaf_bound_ge : forall b K,
+  (forall d, cover b K d -> has_leaf d = true -> K <= leaf_bound b d) /\
+  (forall f, coverf b K f -> has_leaff f = true -> K <= leaf_boundf b f).
 Proof.
-  intros mx b K. apply data_forest_ind.
-  - intros r Hc _. exact Hc.
-  - intros k f IH Hc Hn. cbn [cover no_empty cnt] in *. apply andb_true_iff in Hn. destruct Hn as [Hf Hn].
-    specialize (IH Hc Hn). destruct (cntf mx b f); [exact IH|]. subst f. discriminate.
-  - reflexivity.
-  - intros key d IHd r IHr [Hd Hr] Hn. cbn [no_emptyf] in Hn. apply andb_true_iff in Hn. destruct Hn as [Hnd Hnr].
-    specialize (IHd Hd Hnd). specialize (IHr Hr Hnr). cbn [cntf].
-    destruct (cntf mx b r); [rewrite IHd, IHr; apply Nat.min_id|exact IHd].
+  intros b K. apply data_forest_ind.
+  - intros r Hc _. cbn in *. lia.
+  - intros k f IH Hc Hl. cbn in *. auto.
+  - intros _ H. discriminate.
+  - intros key d IHd r IHr [Hd Hr] Hl. cbn [has_leaff leaf_boundf] in *.
+    apply orb_true_iff in Hl. destruct Hl as [Hl|Hl]; [specialize (IHd Hd Hl)|specialize (IHr Hr Hl)]; lia.
 Qed.
 
 Lemma gen_pieces : forall mx b K d, 1 <= K -> cnt mx b d = K ->
@@ -378,29 +340,41 @@ Proof.
   rewrite repeat_length. lia.
 Qed.
 
-(* merge (split b d) = d *)
-Theorem merge_split_id : forall mx b n d,
-  0 < b -> 0 < n -> uniform n d -> has_leaf d = true -> tuples_ok d = true -> nbatches n b <= mx ->
-  merge_all (gen mx b d) = Some d.
+(* every bound that is not smaller than the number of batches gives the same pieces *)
+Lemma gen_bound_any : forall mx b n d, 0 < n -> uniform n d -> has_leaf d = true -> nbatches n b <= mx ->
+  gen mx b d = pick b 0 d :: map (fun i => pick b i d) (seq 1 (nbatches n b - 1)).
 Proof.
-  intros mx b n d Hb Hn Hu Hl Ht Hmx.
+  intros mx b n d Hn Hu Hl Hmx.
   pose proof (proj1 (uniform_cover b n) d Hu) as Hc.
-  pose proof (nbatches_pos n b Hn) as HK.
-  destruct (proj1 (cnt_cases mx b _ Hmx) d Hc Ht) as [C _].
-  rewrite (gen_pieces mx b (nbatches n b) d HK (C Hl)). cbn [merge_all]. f_equal.
-  apply (proj1 (merge_picks b _ Hb HK)). exact Hc.
+  destruct (proj1 (cnt_cases mx b _ Hmx) d Hc) as [C _].
+  apply gen_pieces; [apply nbatches_pos; exact Hn|exact (C Hl)].
 Qed.
 
-(* without empty containers there is no MAX_ITER condition (and has_leaf is automatic) *)
-Theorem merge_split_id_no_empty : forall mx b n d,
-  0 < b -> 0 < n -> uniform n d -> no_empty d = true ->
-  merge_all (gen mx b d) = Some d.
+Lemma data_split_pieces : forall mx b n d, 0 < n -> uniform n d -> has_leaf d = true ->
+  data_split mx b d = pick b 0 d :: map (fun i => pick b i d) (seq 1 (nbatches n b - 1)).
 Proof.
-  intros mx b n d Hb Hn Hu Hne.
-  pose proof (proj1 (uniform_cover b n) d Hu) as Hc.
-  pose proof (nbatches_pos n b Hn) as HK.
-  rewrite (gen_pieces mx b (nbatches n b) d HK (proj1 (no_empty_cnt mx b _) d Hc Hne)).
-  cbn [merge_all]. f_equal. apply (proj1 (merge_picks b _ Hb HK)). exact Hc.
+  intros mx b n d Hn Hu Hl. unfold data_split. rewrite Hl.
+  apply gen_bound_any; auto.
+  apply (proj1 (leaf_bound_ge b _) d); auto. apply (proj1 (uniform_cover b n)). exact Hu.
+Qed.
+
+(* sys.maxsize stand-in: the generator run with ANY bound big >= number of batches (in particular
+   sys.maxsize) yields exactly the pieces of the model's data_split *)
+Theorem bound_irrelevant : forall big mx b n d, 0 < n -> uniform n d -> has_leaf d = true ->
+  nbatches n b <= big -> gen big b d = data_split mx b d.
+Proof.
+  intros. rewrite (data_split_pieces mx b n d); auto. apply gen_bound_any; auto.
+Qed.
+
+(* merge (split b d) = d *)
+Theorem merge_split_id : forall mx b n d,
+  0 < b -> 0 < n -> uniform n d -> has_leaf d = true ->
+  merge_all (data_split mx b d) = Some d.
+Proof.
+  intros mx b n d Hb Hn Hu Hl.
+  rewrite (data_split_pieces mx b n d Hn Hu Hl). cbn [merge_all]. f_equal.
+  apply (proj1 (merge_picks b _ Hb (nbatches_pos n b Hn))).
+  apply (proj1 (uniform_cover b n)). exact Hu.
 Qed.
 
 (* ------------------------------------------------------------------ batch_call *)
@@ -409,12 +383,12 @@ Definition commutes (fn : data -> data) : Prop :=
 Definition additive (g : list Z -> list Z) : Prop := forall a b, g (a ++ b) = g a ++ g b.
 
 Theorem batch_call_eq : forall fn mx b n d, commutes fn ->
-  0 < b -> 0 < n -> uniform n d -> has_leaf d = true -> tuples_ok d = true -> nbatches n b <= mx ->
+  0 < b -> 0 < n -> uniform n d -> has_leaf d = true ->
   batch_call fn mx b d = Some (fn d).
 Proof.
-  intros fn mx b n d Hf Hb Hn Hu Hl Ht Hmx. unfold batch_call.
-  pose proof (merge_split_id mx b n d Hb Hn Hu Hl Ht Hmx) as M.
-  destruct (gen mx b d) as [|p0 rest]; [discriminate|]. cbn [merge_all map] in *.
+  intros fn mx b n d Hf Hb Hn Hu Hl. unfold batch_call.
+  pose proof (merge_split_id mx b n d Hb Hn Hu Hl) as M.
+  destruct (data_split mx b d) as [|p0 rest]; [discriminate|]. cbn [merge_all map] in *.
   inversion M as [M']. rewrite Hf, M'. reflexivity.
 Qed.
 
@@ -551,36 +525,51 @@ Proof.
   destruct n; [cbn in H; lia|]. cbn. f_equal. apply IH. cbn in H. lia.
 Qed.
 
-(* a LazyCall without extra entries: merging its batches = its eager value *)
+(* a LazyCall without extra entries: merging its batches = its eager value.  The extra dict {} is
+   split on its own, holds no array, and therefore still yields only MAX_ITER (mx) copies. *)
 Theorem lazy_eq_eager : forall fn mx b n x, commutes fn ->
-  0 < b -> 0 < n -> uniform n x -> has_leaf x = true -> tuples_ok x = true -> nbatches n b <= mx ->
+  0 < b -> 0 < n -> uniform n x -> has_leaf x = true -> nbatches n b <= mx ->
   merge_all (lazy_batches fn mx b x empty_dict) = Some (lazy_eval fn x empty_dict).
 Proof.
-  intros fn mx b n x Hf Hb Hn Hu Hl Ht Hmx. unfold lazy_batches, lazy_eval.
-  change (gen mx b empty_dict) with (repeat empty_dict mx).
-  pose proof (proj1 (uniform_cover b n) x Hu) as Hc.
-  destruct (proj1 (cnt_cases mx b _ Hmx) x Hc Ht) as [C _]. specialize (C Hl).
-  rewrite zipw_repeat; [|rewrite map_length, (proj1 (gen_spec mx b)), map_length, seq_length, C; exact Hmx].
+  intros fn mx b n x Hf Hb Hn Hu Hl Hmx. unfold lazy_batches, lazy_eval.
+  change (data_split mx b empty_dict) with (repeat empty_dict mx).
+  rewrite zipw_repeat.
+  2:{ rewrite map_length, (data_split_pieces mx b n x Hn Hu Hl). cbn [length]. rewrite map_length, seq_length.
+      pose proof (nbatches_pos n b Hn). lia. }
   rewrite map_map.
   assert (Hw : commutes (fun p => wrap (fn p))).
   { intros d0 others. rewrite <- (map_map fn wrap), wrap_commutes, Hf. reflexivity. }
-  exact (batch_call_eq (fun p => wrap (fn p)) mx b n x Hw Hb Hn Hu Hl Ht Hmx).
+  exact (batch_call_eq (fun p => wrap (fn p)) mx b n x Hw Hb Hn Hu Hl).
 Qed.
 
-(* ------------------------------------------------------------------ where the hypotheses are needed (findings / observations) *)
+(* ... and with more batches than MAX_ITER the iteration of such a LazyCall stops early (finding) *)
+Lemma lazy_max_iter_refuted : exists fn mx b x, commutes fn /\ uniform 3 x /\ has_leaf x = true /\
+  merge_all (lazy_batches fn mx b x empty_dict) <> Some (lazy_eval fn x empty_dict).
+Proof.
+  exists (fun d => d), 2, 1, (Node KDict (FCons 0%Z (Leaf [1%Z; 2%Z; 3%Z]) FNil)).
+  split; [intros d0 others; rewrite map_id; reflexivity|].
+  cbn. repeat split; auto. intro H. discriminate H.
+Qed.
+
+(* ------------------------------------------------------------------ observation, and the generator before the repairs *)
 (* F10: nothing but empty containers: MAX_ITER copies *)
-Lemma split_no_array : forall mx b, gen mx b (Node KDict FNil) = repeat (Node KDict FNil) mx.
+Lemma split_no_array : forall mx b, data_split mx b (Node KDict FNil) = repeat (Node KDict FNil) mx.
 Proof. reflexivity. Qed.
-(* an empty tuple anywhere: no batch at all, the data vanish *)
-Lemma split_empty_tuple_refuted : exists d, uniform 2 d /\ has_leaf d = true /\ merge_all (gen 1000 1 d) = None.
+(* F12 (old): an empty tuple anywhere: no batch at all, the data vanish *)
+Lemma old_split_empty_tuple : exists d, uniform 2 d /\ has_leaf d = true /\ merge_all (gen_old 1000 1 d) = None.
 Proof.
   exists (Node KDict (FCons 0%Z (Leaf [1%Z; 2%Z]) (FCons 1%Z (Node KTuple FNil) FNil))).
   cbn. auto.
 Qed.
-(* more batches than MAX_ITER while an empty container is present: rows are dropped *)
-Lemma split_max_iter_refuted : exists mx d, uniform 3 d /\ has_leaf d = true /\ tuples_ok d = true /\
-  merge_all (gen mx 1 d) <> Some d.
+(* F13 (old): more batches than MAX_ITER while an empty container is present: rows are dropped *)
+Lemma old_split_max_iter : exists mx d, uniform 3 d /\ has_leaf d = true /\ merge_all (gen_old mx 1 d) <> Some d.
 Proof.
   exists 2, (Node KDict (FCons 0%Z (Leaf [1%Z; 2%Z; 3%Z]) (FCons 1%Z (Node KDict FNil) FNil))).
   cbn. repeat split; auto. intro H. discriminate H.
 Qed.
+(* the same two structures with the current generator *)
+Lemma new_split_examples :
+  let d1 := Node KDict (FCons 0%Z (Leaf [1%Z; 2%Z]) (FCons 1%Z (Node KTuple FNil) FNil)) in
+  let d2 := Node KDict (FCons 0%Z (Leaf [1%Z; 2%Z; 3%Z]) (FCons 1%Z (Node KDict FNil) FNil)) in
+  merge_all (data_split 1000 1 d1) = Some d1 /\ merge_all (data_split 2 1 d2) = Some d2.
+Proof. cbn. split; reflexivity. Qed.
